@@ -89,6 +89,35 @@ let case variant ticker line =
          (String.concat "," (List.map (fun v -> zs v.i_start ^ "-" ^ zs v.i_end ^
             (match v.i_wait with Some w -> "+" ^ zs w | None -> "")) tr))
      | (e, _) -> show_ctor_err e)
+  | ["vretry"; strat; cancel; tie; script] ->
+    (* virtual-clock run: strat may be "script:iv:ok;iv:ok;..." (a Strategy answering from a list, then (0,false));
+       cancel = none | at:<ns>[:kind]; tie = c | t (who wins when ctx and timer are ready at the same instant) *)
+    let att i s =
+      let d = z_of_string (String.sub s 1 (String.length s - 1)) in
+      { a_res = (if s.[0] = 'o' then AOk else AFail (nat_of_int (i + 1))); a_dur = d; a_tie = (tie = "c") } in
+    let script = List.mapi att (split_on ',' script) in
+    let cancel_at = match split_on ':' cancel with
+      | "at" :: ns :: _ -> Some (z_of_string ns)
+      | _ -> None in
+    let show (tr, r) =
+      let res = match r with
+        | RNil -> "nil" | RExhausted _ -> "exhausted" | RCtx -> "ctx"
+        | ROutOfScript -> "outofscript" | RPanic -> "panic" in
+      let last = match r with RExhausted e -> string_of_int (int_of_nat e) | _ -> "-" in
+      Printf.sprintf "n=%d res=%s | lasterr=%s trace=%s" (List.length tr) res last
+        (String.concat "," (List.map (fun v -> zs v.i_start ^ "-" ^ zs v.i_end ^
+           (match v.i_wait with Some w -> "+" ^ zs w | None -> "")) tr)) in
+    (match split_on ':' strat with
+     | ["script"; l] ->
+       let ans = List.filter (fun x -> x <> "") (split_on ';' l) in
+       let ans = List.map (fun a -> match split_on '/' a with
+           | [iv; ok] -> (z_of_string iv, ok = "1") | _ -> failwith "answer") ans in
+       let nxt = function a :: t -> (t, a) | [] -> ([], (BinNums.Z0, false)) in
+       show (retry nxt cancel_at BinNums.Z0 ans script)
+     | ws ->
+       (match ctor variant ws with
+        | (CtorOk p, []) -> show (retry (next p) cancel_at BinNums.Z0 s0 script)
+        | (e, _) -> show_ctor_err e))
   | _ -> "badcase"
 
 let run variant ticker = iter_lines (fun line -> print_endline (case variant ticker line))
